@@ -12,6 +12,7 @@ import (
 	"go.dedis.ch/kyber/v4"
 	"go.dedis.ch/kyber/v4/encrypt/ecies"
 	"go.dedis.ch/kyber/v4/group/edwards25519"
+	"go.dedis.ch/kyber/v4/group/edwards25519vartime"
 	"go.dedis.ch/kyber/v4/group/p256"
 	"go.dedis.ch/kyber/v4/proof"
 	"go.dedis.ch/kyber/v4/proof/dleq"
@@ -164,6 +165,10 @@ func c20GroupKind(g *groups.G) c20kind {
 			acts = append(acts, c20action{"Point.Mul(s,nil)", func() string { return fp(g.Point().Mul(s, nil).MarshalBinary()) }})
 		}
 		if E != nil {
+			// the same embedded value in a non-normalised internal form (E - B + B), and an arbitrary non-normalised point
+			EN := g.Point().Add(g.Point().Sub(E, B), B)
+			acts = append(acts, c20action{"Point.Data(non-normalised)", func() string { d, err := EN.Data(); return fp(d, err) }},
+				c20action{"Point.Data(arbitrary point)", func() string { d, err := P.Data(); return fp(d, err) }})
 			acts = append(acts, c20action{"Point.Data", func() string { d, err := E.Data(); return fp(d, err) }},
 				c20action{"Point.MarshalBinary(embedded)", func() string { return fp(E.MarshalBinary()) }})
 		}
@@ -230,6 +235,53 @@ func c20PairingKind(ps *groups.PS) c20kind {
 				return fp(agg.MarshalBinary()) + mon.Hex(c.Mask()) + mon.Hex(mask.Mask())
 			}},
 		}
+	}}
+}
+
+// c20FreshSuitesKind: suite and group objects that nobody has touched before the concurrent phase (lazy initialisation
+// on first use must be race-free too).
+func c20FreshSuitesKind() c20kind {
+	return c20kind{name: "fresh-suites", build: func(rng *gen.Rng) []c20action {
+		var acts []c20action
+		type fullSuite interface {
+			kyber.Group
+			kyber.HashFactory
+			kyber.XOFFactory
+			kyber.Random
+		}
+		add := func(name string, s fullSuite) {
+			acts = append(acts, c20action{"fresh " + name + ".RandomStream/Hash/XOF/Point/Scalar", func() string {
+				b := make([]byte, 16)
+				s.RandomStream().XORKeyStream(b, b)
+				h := s.Hash()
+				h.Write([]byte("x"))
+				x := s.XOF([]byte("seed"))
+				o := make([]byte, 8)
+				_, _ = x.Read(o)
+				p := s.Point().Null()
+				sc := s.Scalar().One()
+				return mon.Hex(h.Sum(nil)) + mon.Hex(o) + fp(p.MarshalBinary()) + fp(sc.MarshalBinary()) + fmt.Sprint(s.PointLen(), s.ScalarLen(), s.String())
+			}})
+		}
+		add("edwards25519", edwards25519.NewBlakeSHA256Ed25519())
+		add("edwards25519vartime", edwards25519vartime.NewBlakeSHA256Ed25519(false))
+		add("p256", p256.NewBlakeSHA256P256())
+		add("qr512", p256.NewBlakeSHA256QR512())
+		for _, ps := range groups.Suites() {
+			ps := ps
+			acts = append(acts, c20action{"fresh " + ps.Name + ".G1/G2/GT/RandomStream/Hash/XOF", func() string {
+				s := ps.S
+				b := make([]byte, 16)
+				s.RandomStream().XORKeyStream(b, b)
+				h := s.Hash()
+				h.Write([]byte("x"))
+				x := s.XOF([]byte("seed"))
+				o := make([]byte, 8)
+				_, _ = x.Read(o)
+				return mon.Hex(h.Sum(nil)) + mon.Hex(o) + fp(s.G1().Point().Null().MarshalBinary()) + fp(s.G2().Point().Null().MarshalBinary()) + fp(s.GT().Point().Null().MarshalBinary()) + fp(s.G1().Scalar().One().MarshalBinary())
+			}})
+		}
+		return acts
 	}}
 }
 
@@ -398,6 +450,7 @@ func c20(r *mon.R) {
 			kinds = append(kinds, c20PairingKind(ps))
 		}
 		kinds = append(kinds, c20SchemesKind())
+		kinds = append(kinds, c20FreshSuitesKind())
 	}
 	reps := r.N(3, 40)
 	iters := r.N(4, 8)
